@@ -136,6 +136,12 @@ def rule_a(ctx: Context, R: Reporter, wrapper: FuncInfo, disp: FuncInfo):
             first = c.args[0] if c.args else None
             R.check("C13.a", "argument order is (likelihood, points)", first is not None and _is_user_like_ref(first) and len(c.args) == 2, wrapper, c,
                     msg=f"{wrapper.short}: `{unparse(c)[:70]}`", key=f"mapper-args:{norm_text(c.func)[:40]}")
+            # the callable may be builtin map (serial evaluation, an integer pool of one process) or a pool's map: only the
+            # two positional arguments are common to both; a keyword (chunksize=...) makes the serial case raise
+            R.check("C13.a", "the mapping callable is called with (function, points) only", not c.keywords, wrapper, c,
+                    msg=f"{wrapper.short}: `{unparse(c)[:70]}` passes keyword(s) {[k.arg for k in c.keywords]} to the mapping callable, which is builtin `map` whenever evaluation is "
+                        f"serial (pool=1, or a pool object's map otherwise): builtin map takes no keyword arguments, so a configuration the constructor accepted raises TypeError at the "
+                        f"first likelihood evaluation", key=f"mapper-keywords:{norm_text(c.func)[:40]}")
             # the mapped points are the batch the wrapper was given: same rows, same order
             pts = c.args[1] if len(c.args) == 2 else None
             wflow = flow_of(wrapper.node)
@@ -703,6 +709,7 @@ def variants():
         Variant("c-total-dropped", "bad", replace_stmt(mu, "Mutator.run", "calls = self.state.get_current('calls') + mcmc_calls", "calls = self.state.get_current('calls')"), ["C13.c"]),
         Variant("g-pool-cached-globally", "bad", replace_stmt(core, "SamplerCore._get_distribute_func", "pool = Pool(self.config.pool)", "global _POOL\n_POOL = pool = Pool(self.config.pool)"), ["C13.g"], quick=True),
         Variant("f-pool-sized-default", "bad", replace_stmt("tempest/config.py", "SamplerConfig.__post_init__", "object.__setattr__(self, 'n_particles', 2 * self.n_dim)", "object.__setattr__(self, 'n_particles', 2 * self.n_dim + (self.pool if isinstance(self.pool, int) else 0))"), ["C13.f"], quick=True),
+        Variant("a-chunksize-keyword-to-mapper", "bad", replace_expr(core, "SamplerCore._log_like", "self._get_distribute_func()(self.config.log_likelihood, x)", "self._get_distribute_func()(self.config.log_likelihood, x, chunksize=4)"), ["C13.a"], quick=True),
         Variant("a-lazy-results", "bad", replace_expr(core, "SamplerCore._log_like", "list(self._get_distribute_func()(self.config.log_likelihood, x))", "self._get_distribute_func()(self.config.log_likelihood, x)"), ["C13.a"], quick=True),
         Variant("a-benign-tuple-results", "benign", replace_expr(core, "SamplerCore._log_like", "list(self._get_distribute_func()(self.config.log_likelihood, x))", "tuple(self._get_distribute_func()(self.config.log_likelihood, x))")),
         Variant("benign-rename-results", "benign", alpha_rename(core, "SamplerCore._log_like", "results", "vals"), quick=True),
